@@ -7,6 +7,9 @@ import (
 	"sync"
 	"sync/atomic"
 
+	"github.com/crate-crypto/go-ipa/bandersnatch/fr"
+	"github.com/crate-crypto/go-ipa/banderwagon"
+	"github.com/crate-crypto/go-ipa/common"
 	"github.com/crate-crypto/go-ipa/ipa"
 
 	"verif/mon"
@@ -32,7 +35,7 @@ func init() {
 		Plan: func(tier string) []Child {
 			var out []Child
 			if tier == "quick" {
-				cfg := [][2]int{{4, 4}, {2, 1}, {6, 16}, {4, 2}}
+				cfg := [][2]int{{4, 4}, {2, 1}, {5, 16}, {3, 2}}
 				for i, k := range cfg {
 					out = append(out, Child{TimeoutS: pick(tier, 900, 7200), Flavour: "race", NCPU: k[0], GOMAXPROCS: k[1], Shard: i, NShards: len(cfg), Params: map[string]string{"sched": fmt.Sprint(1 + i%2)}})
 				}
@@ -309,6 +312,94 @@ func runC12(c *mon.Ctx) {
 			}
 		})
 	}
+	// ---- shared read-only inputs under a watcher ----
+	// Several goroutines call read-only APIs on the same scalar/point/polynomial objects while a watcher goroutine keeps
+	// comparing those objects with their original bits. The field arithmetic is assembly, which the race detector cannot
+	// see, so a callee that temporarily rewrites an input in place would otherwise go unnoticed.
+	c.Case("shared-inputs-watch", func() {
+		snapS := append([]fr.Element(nil), o.sharedScalars...)
+		snapP := append([]banderwagon.Element(nil), o.sharedPoints...)
+		snapF := append([]fr.Element(nil), o.sharedPoly...)
+		var done int32
+		var polls, torn int64
+		var firstTorn atomic.Value
+		var wg, ww sync.WaitGroup
+		ww.Add(1)
+		go func() {
+			defer ww.Done()
+			for atomic.LoadInt32(&done) == 0 {
+				for i := range snapS {
+					if v := o.sharedScalars[i]; v != snapS[i] {
+						torn++
+						firstTorn.Store(fmt.Sprintf("shared scalar %d observed as %v, original %v", i, v, snapS[i]))
+					}
+				}
+				for i := range snapP {
+					if v := o.sharedPoints[i]; v != snapP[i] {
+						torn++
+						firstTorn.Store(fmt.Sprintf("shared point %d observed modified", i))
+					}
+				}
+				for i := 0; i < len(snapF); i += 17 {
+					if v := o.sharedPoly[i]; v != snapF[i] {
+						torn++
+						firstTorn.Store(fmt.Sprintf("shared polynomial entry %d observed modified", i))
+					}
+				}
+				polls++
+			}
+		}()
+		light := func() string {
+			// cheap read-only calls on the shared objects (transcript absorption, encoders, comparisons, map to field)
+			var d digester
+			tr := common.NewTranscript("w")
+			for i := range o.sharedScalars {
+				tr.AppendScalar(&o.sharedScalars[i], []byte("s"))
+				tr.AppendPoint(&o.sharedPoints[i], []byte("p"))
+				b := o.sharedScalars[i].BytesLE()
+				d.add(b[:])
+				b2 := o.sharedScalars[i].Bytes()
+				d.add(b2[:])
+				d.addf("%d %v", o.sharedScalars[i].Cmp(&o.sharedScalars[(i+1)%len(o.sharedScalars)]), o.sharedScalars[i].LexicographicallyLargest())
+				d.elem(&o.sharedPoints[i])
+				var m fr.Element
+				o.sharedPoints[i].MapToScalarField(&m)
+				mb := m.Bytes()
+				d.add(mb[:])
+			}
+			ch := tr.ChallengeScalar([]byte("c"))
+			cb := ch.Bytes()
+			d.add(cb[:])
+			return d.sum()
+		}
+		want := light()
+		for g := 0; g < 4; g++ {
+			wg.Add(1)
+			go func() {
+				defer wg.Done()
+				for it := 0; it < c.Pick(300, 3000); it++ {
+					if d := light(); d != want {
+						c.Fail("output-differs-from-sequential/shared-read-only-inputs", "a read-only operation on inputs shared by several goroutines returned a different result than when executed alone", nil)
+						return
+					}
+				}
+			}()
+		}
+		wg.Wait()
+		atomic.StoreInt32(&done, 1)
+		ww.Wait()
+		c.Count("shared_input_watch_polls", polls)
+		if torn > 0 {
+			msg, _ := firstTorn.Load().(string)
+			c.Fail("shared-input-temporarily-modified", fmt.Sprintf("an input object passed to read-only APIs was observed with different bits while the calls were in flight (%d observations): %s", torn, msg), nil)
+		}
+		for i := range snapS {
+			if o.sharedScalars[i] != snapS[i] {
+				c.Fail("shared-input-modified", "a shared scalar is different after the calls", nil)
+			}
+		}
+		c.Eval(fmt.Sprintf("shared-inputs-watch|P=%d|W=%d", gmp, w), true)
+	})
 	c.Case("final-fingerprint", func() {
 		if tf := tableFingerprint(env.Conf); tf != tf0 {
 			c.Fail("tables-changed", "the precomputed MSM tables changed during concurrent use", map[string]string{"before": tf0, "after": tf})
